@@ -3,8 +3,10 @@
 package rules
 
 import (
+	"bytes"
 	"fmt"
 	"go/ast"
+	"go/printer"
 	"go/token"
 	"go/types"
 	"sort"
@@ -304,6 +306,15 @@ func assignsTo(n *flow.Node, match func(ast.Expr) bool) (ast.Expr, bool) {
 		}
 	}
 	return nil, false
+}
+
+// src renders a syntax node as source text.
+func (c *Ctx) src(n ast.Node) string {
+	var buf bytes.Buffer
+	if err := printer.Fprint(&buf, c.P.Fset, n); err != nil {
+		return ""
+	}
+	return buf.String()
 }
 
 func pathStr(c *Ctx, g *flow.Graph, path []*flow.Node) string {
